@@ -12,7 +12,7 @@ Extraction "model.ml"
   ExprExec.eval_slice ExprExec.spec_slice ExprExec.any_nzl ExprExec.all_nzl
   CRTExec.poly2mpz_coef CRTExec.mpz2poly_coef CRT.prod
   Setters.set_list
-  Serial.serialize Serial.deserialize Serial.overlay
+  Serial.serialize Serial.deserialize Serial.overlay Text.print Text.parse
   PolyP.step PolyP.spec_step PolyP.abs PolyP.init PolyP.hs
   RandBytes.randombytes RandBytes.calls
   Prng.run_hist Prng.g0 Prng.g_seedings Salsa.stream
@@ -20,4 +20,4 @@ Extraction "model.ml"
   SamplersExec.set_uniform SamplersExec.set_bounded SamplersExec.set_zo SamplersExec.set_hwt SamplersExec.set_gauss Samplers.zo_val Samplers.bnd_val Samplers.bnd_tmp SamplersExec.mask_bits
   GaussExec.get_noise GaussExec.decode_spec
   Params.rows16 Params.rows32 Params.rows64 Shards.K16 Shards.K32 Shards.K64
-  Z.modulo Z.div Z.mul Z.add Z.sub Z.pow.
+  Z.modulo Z.div Z.mul Z.add Z.sub Z.pow Z.to_N Z.of_N.
